@@ -32,6 +32,7 @@ MODS = [M + f for f in (
 PIPEX = CORE + MODS + [E + "vmock_upump.c", E + "simfd.c"]
 
 BLK = [R + "umem_alloc.c", R + "ubuf_block_mem.c", R + "ubuf_mem_common.c"]
+BLK_FAULT = [(f, ["-Dmalloc=vf_malloc"]) for f in BLK]   # libc allocations routed through the harness (refused-memory axis)
 VS = [E + "vsched.c"]
 HARNESSES = {
     "c06_worker": {"src": [H + "c06_worker.c", M + "upipe_transfer.c", M + "upipe_worker.c"] + PIPEX + VS},
@@ -63,7 +64,7 @@ HARNESSES = {
     "c10_udict": {"src": [H + "c10_udict.c", R + "udict_inline.c"]},
     "c08_wakeup": {"src": [H + "c08_wakeup.c", E + "simfd.c"] + VS},
     "c09_refcount": {"src": [H + "c09_refcount.c", R + "ubuf_block_mem.c", R + "ubuf_mem_common.c"] + VS},
-    "c03_block": {"src": [H + "c03_block.c"] + BLK},
+    "c03_block": {"src": [H + "c03_block.c"] + BLK_FAULT},
     "c18_bits": {"src": [H + "c18_bits.c", R + "umem_alloc.c", R + "ubuf_block_mem.c", R + "ubuf_mem_common.c"]},
 }
 
@@ -132,6 +133,12 @@ def _c03_jobs(depth, maxn, deadline):
     for (pp, ap, al, pool) in cfgs:
         for n0 in (0, 3):
             jobs.append(("c03_block", ["--prepend", pp, "--append", ap, "--align", al, "--pool", pool,
+                                       "--n0", n0, "--maxn", maxn, "--depth", depth, "--deadline", deadline]))
+    # environment deviation: one (thorough: two) refused memory request(s) anywhere in the history: an operation that fails for
+    # that reason must leave the block as it was (buffer areas and buffer / shared-area descriptors all count)
+    for (pp, ap, al, pool) in ((0, 0, 0, 0), (3, 2, 4, 2)):
+        for n0 in (0, 3):
+            jobs.append(("c03_block", ["--prepend", pp, "--append", ap, "--align", al, "--pool", pool, "--faults", 1 if depth <= 4 else 2,
                                        "--n0", n0, "--maxn", maxn, "--depth", depth, "--deadline", deadline]))
     # repeating fill (0,0,0,1,...): occurrences are not unique, words overlap themselves (scan/find/compare/match)
     for n0 in (0, 4):
